@@ -16,11 +16,11 @@ CORE = {
 GAPS = {
  'C01': "C01_agree / C01_taskOK / C01_result hold for every reachable state of WELL-SCOPED programs (decidable wsTop: every Ref names an existing future; C01_agree_needs_scoping is a machine-checked counterexample for ill-scoped ones - the model resolves a dangling ref to future 0), with guardFired = false and no NonAsyncContext (its failure is schedule-dependent by design); they cover every calling convention of the language (top-level call and .value(), synchronous calls inside tasks, yield, result()/return), every flush order (arbitrary oracle) and every priority configuration; 'for both the pure-Python and the compiled build' is the correspondence run on both builds (thorough tier)",
  'C02': "the delivery clauses are C02_delivery/C02_uncaught/C02_first_error (Theorems/C01.lean) and C02_received_trace; (tasks not depending on a failed future are unaffected: proved as C02_unaffected / C02_unaffected_transitive / C02_error_chain)",
- 'C03': "clauses resting on the correspondence only (no theorem yet): start order of tasks yielded together, TERMINATION of every finite acyclic computation and the depth beyond the interpreter's recursion limit (needs the acyclicity invariant; checked by watchdog + chains of 50 000 tasks on the real code)",
+ 'C03': "TERMINATION is proved for yield-only, well-scoped, NonAsync-free programs under every flush oracle while the guard does not fire (C03_terminates_yieldonly: a 5-component lexicographic measure decreases at every step; at the end every started task is computed), on top of the proved acyclicity of the await graph (acyclic_refs, no_reentrancy, no_revisit_between_visits); start order is proved at the level of the scheduler stack (C03_order_stack: the futures of a list/tuple yield sit on the stack in written order, first on top), its trace-level consequence and termination of programs with synchronous re-entry rest on the correspondence (watchdog; chains 50 000 tasks deep run on the real code beyond the interpreter's recursion limit)",
  'C04': "C04_settled_at_flush is proved for trees AND DAGs of yield-only, well-scoped programs without NonAsyncContext while the MAX_TASK_STACK_SIZE guard has not fired (acyclicity of the await graph is proved from scoping by a post-order on creation paths); clause resting on the correspondence only: 'a single-kind computation performs exactly as many flushes as its longest chain of dependent requests' (Seq.roundsTop compared with the flush count of the real scheduler on trees, chains and staggered families); the link between the state-level Settled and the trace observer Spec.Watch.settled is by construction of the observer, not a theorem",
  'C05': "every clause of the statement has a theorem (what the awaiting task receives is C02_received_trace)",
  'C06': "clauses resting on the correspondence only (no theorem yet): 'paused whenever a task it is not awaiting runs / whenever a batch is flushed while suspended' (the awaiting-chain characterisation of which contexts are active); proved: flag invariants, strict alternation per context, exit implies paused, NonAsyncContext failure on suspension",
- 'C07': "proved unconditionally: all contexts are paused between computations also after an error (C07_all_paused_at_top), per-task save/restore, exited contexts are paused; proved RELATIVE to the explicit hypothesis NoRevisit (no task with resumed contexts is pushed on the stack again - implied by acyclicity of the await graph, whose general proof is in progress; reduced to two local conditions `Cold`): global LIFO nesting (C07_lifo_of_norevisit), every read = innermost resumed override (C07_values_of_norevisit), restoration at the end and zero svals (C07_restored_of_norevisit, C07_svals_zero_of_norevisit); 'reads equal what sequential code reads' rests on the correspondence (observer clause scoped-read)",
+ 'C07': "proved for every reachable state of well-scoped programs (guardFired = false, no NonAsyncContext): the global resume/pause word is well-bracketed (C07_lifo), every scoped value equals the innermost resumed override (C07_values), everything is restored between computations also after an error (C07_restored_at_top, C07_svals_zero, C07_all_paused_at_top), per-task save/restore; via the proved acyclicity of the await graph (C07_noRevisit); 'a read equals what the same code would read sequentially' (which override is innermost along the awaiting chain) rests on the correspondence (observer clause scoped-read)",
  'C08': "clause resting on the correspondence only: 'the next computation behaves as on a fresh scheduler' (checked by sequences of computations); C08_active/C08_frames carry guardFired = false (a machine-checked counterexample shows the hypothesis is necessary: known finding)",
  'C20': "of asynq's options only KEEP_DEPENDENCIES and MAX_TASK_STACK_SIZE exist in the machine: C20_keepdeps_inert/_conv/_complete prove a stuttering simulation (the option run takes silent extra steps) with equal normalised traces and outcomes, C20_maxstack_inert proves the limit is irrelevant until it fires, C20_guard_counterexample shows that after a guard reset KEEP_DEPENDENCIES does change context events (exotic: runaway recursion only; not reachable with the default limit); that every DUMP_* flag, COLLECT_PERF_STATS and ENABLE_COMPLEX_ASSERTIONS is a no-op rests on the differential runs (random option subsets, scripted clock up to hours per step, pure-Python and freshly compiled build)",
 }
